@@ -167,9 +167,13 @@ def gen_cfg(rng, shape=None, nnt=None, nterms=None, convergent=True, maxrules=8,
     # orthogonal twist: an EXACT duplicate (same weight, head, body) of some rule — rule lists are multisets, while
     # `Rule` hashes/compares structurally, so anything keyed by Rule objects silently merges the copies
     if shape == "useless" and rng.random() < 0.6:
-        dead = [r for r in rules if len(r[2]) >= 2 and "U2" in r[2]]
-        r = rng.choice(dead)
-        rules.append([r[0], r[1], list(r[2])])
+        # a head whose ONLY rule (listed twice, identically) has one generating and one dead body symbol, used elsewhere
+        w = rng.choice(W)
+        body = [rng.choice(terms), "U2"] if rng.random() < 0.5 else ["N9", "U2"]
+        rules.append([w, "Ud", list(body)])
+        rules.append([w, "Ud", list(body)])
+        rules.append([rng.choice(W), A, ["Ud"]])
+        rules.append([rng.choice(W), "S", [rng.choice(terms), "Ud"]])
     elif rng.random() < 0.3 and rules:
         r = rng.choice(rules)
         rules.append([r[0], r[1], list(r[2])])
